@@ -44,6 +44,16 @@ OPS = [
     ('narrow_sum', 'byte', is_(bin_('+', A, Bv), 'byte'), False),
     ('cmp_chain', 'bool', bin_('and', bin_('<=', A, Bv), ('un', 'not', bin_('==', A, Bv))), False),
     ('or_mixed', 'bool', bin_('or', bin_('<', A, Bv), BB), False),
+    ('nand', 'bool', ('un', 'not', bin_('and', A, Bv)), False),
+    ('nor', 'bool', ('un', 'not', bin_('or', A, Bv)), False),
+    ('or_nand', 'bool', bin_('or', bin_('>', A, I(5)), ('un', 'not', bin_('and', A, Bv))), False),
+    ('and_nor', 'bool', bin_('and', bin_('<', A, I(300)), ('un', 'not', bin_('or', BB, bin_('==', A, Bv)))), False),
+    ('demorgan', 'bool', bin_('and', ('un', 'not', A), ('un', 'not', Bv)), False),
+    ('and_or', 'bool', bin_('or', bin_('and', A, Bv), bin_('and', BB, AB)), False),
+    ('or_and', 'bool', bin_('and', bin_('or', A, Bv), bin_('or', ('un', 'not', A), BB)), False),
+    ('not_not', 'bool', ('un', 'not', ('un', 'not', bin_('<', A, Bv))), False),
+    ('cast_byte_truth', 'bool', is_(is_(bin_('*', A, Bv), 'byte'), 'bool'), False),
+    ('byte_cond', 'byte', is_(bin_('-', A, Bv), 'byte'), False),
 ]
 
 N_FIXED = len(OPS) * len(WORDS) * 16
@@ -54,7 +64,7 @@ TIERS = {
 RULE = ('fixed jobs: every operator/cast in OPS x every row of the boundary grid {0,+-1,+-2,127,128,255,256,'
         '-128,-255,-256,max,max-1,min,min+1} as left operand x the whole grid as right operands x word '
         'sizes {2,3,4}; operands travel through argv so nothing is folded. Each application is observed '
-        'in four lowering positions: as a printed value, as an if condition, as !truth_is_defeat inside '
+        'in several lowering positions: as a printed value, as an if / while / negated-if condition, as !truth_is_defeat inside '
         'try/undo and inside try/stop (and negated). seeded jobs: random operand rows. oracle: reference '
         'interpreter (wrap-around, signed compare, zero-extension, truncation, strict 0/1). '
         'distinct = hash(source, argv, W); non-trivial = at least one operator application executed and won.')
@@ -78,6 +88,8 @@ def op_prog(op):
     per_pair = [
         shown, write(C(' ')),
         if_(branch_cond, block(write(C('T'))), block(write(C('F')))),
+        while_(branch_cond, write(C('W')), ('break',)),
+        if_(('un', 'not', branch_cond), block(write(C('t')))),
         try_(block(ex(call('!truth_is_defeat', cond)), write(C('n'))), 'undo', block(write(C('d')))),
         try_(block(ex(call('!truth_is_defeat', cond)), write(C('n'))), 'stop', block(write(C('s')))),
         try_(block(ex(call('!truth_is_defeat', ('un', 'not', cond))), write(C('N'))), 'undo', block(write(C('D')))),
